@@ -4,9 +4,10 @@ import Aqua.Air.LexBase
 Replica of the lens ("lambda") parser: `lambda/parser/src/parser/lexer/lambda_ast_lexer.rs`
 (`LambdaASTLexer`), the grammar `va_lambda.lalrpop` and `lambda_parser.rs::parse`.
 
-`tokenize_until` slices `&input[start_offset..end_pos + 1]` where `end_pos` is the byte offset of the
-last accepted character: if that character is longer than one byte the slice ends inside it and
-`str` indexing panics.  The model keeps that slice (`Lex.sliceBytes`) and reports the panic.
+`tokenize_until` slices `&input[start_offset..end_pos]` with `end_pos` advanced by `len_utf8()` of
+every accepted character (before the repair 5981066 it was `[start_offset..end_pos + 1]` with the
+offset of the last accepted character, which panicked inside a multi-byte character).  The model
+keeps the checked slice (`Lex.sliceBytes`); that it never fails is a theorem.
 
 The LALRPOP automaton (with its error recovery) is not modelled: only the language it accepts — the
 grammar is LR(1), the recogniser below follows its productions and rejects at the first token that
@@ -37,16 +38,27 @@ deriving Repr, DecidableEq, Inhabited
 
 def u32Max : Nat := 4294967295
 
-/-- the peek loop of `tokenize_until`: returns `end_pos` and the rest of the iterator -/
+/-- the peek loop of `tokenize_until`: `end_pos = pos + ch.len_utf8()` for every accepted character;
+returns `end_pos` and the rest of the iterator -/
 def tokenizeUntilLoop (cond : Char → Bool) (endPos : Nat) : List (Nat × Char) → Nat × List (Nat × Char)
   | [] => (endPos, [])
-  | (pos, ch) :: rest => if !cond ch then (endPos, (pos, ch) :: rest) else tokenizeUntilLoop cond pos rest
+  | (pos, ch) :: rest => if !cond ch then (endPos, (pos, ch) :: rest) else tokenizeUntilLoop cond (pos + ch.utf8Size) rest
 
-/-- `tokenize_until`: `none` = the slice `[start_offset..end_pos + 1]` panics -/
+/-- `tokenize_until` (as repaired in 5981066): the token starts with the already consumed character at
+`start_offset`, whose length is read from `&self.input[start_offset..]`; the result is
+`&self.input[start_offset..end_pos]`.  `none` = one of the two slices panics (proved impossible:
+`AquaProps.C23.C23_totality_full`). -/
 def tokenizeUntil (input : List Char) (startOffset : Nat) (cond : Char → Bool) (chars : List (Nat × Char)) :
     Option (List Char) × List (Nat × Char) :=
-  let (endPos, rest) := tokenizeUntilLoop cond startOffset chars
-  (Lex.sliceBytes input startOffset (endPos + 1), rest)
+  match Lex.sliceBytes input startOffset (Lex.utf8Len input) with
+  | none => (none, chars)
+  | some tail =>
+    -- `.chars().next().map(char::len_utf8).unwrap_or_default()`
+    let firstCharLen := match tail with
+      | c :: _ => c.utf8Size
+      | [] => 0
+    let (endPos, rest) := tokenizeUntilLoop cond (startOffset + firstCharLen) chars
+    (Lex.sliceBytes input startOffset endPos, rest)
 
 def panicSite : String := "lambda_ast_lexer.rs tokenize_until: byte index is not a char boundary"
 
